@@ -62,6 +62,7 @@ fn main() {
         "GIVEN" => multi::run_given(&mut out),
         "C03H" => multi::run_detour(seed, tier, &mut out),
         "ROWS" => multi::run_rows(seed, tier, &mut out),
+        "ROWSW" => multi::run_rows_wrapping(seed, tier, &mut out),
         "C05M" => multi::run_limited(seed, tier, &mut out),
         _ => { eprintln!("unknown property {prop}"); std::process::exit(2); }
     }
